@@ -174,7 +174,7 @@ def _sf(p):
     n = a * b
     outside = 0
     full = {}                        # step -> (nb, xm) with the most lags in the domain
-    w_def = w_ramp = w_quad = w_trunc = 0.0
+    w_def = w_ramp = w_quad = w_trunc = w_piston = 0.0
     bad_len = []
     for nb, step, xm, st, dom in _params(a, b):
         if dom is None:
@@ -208,6 +208,15 @@ def _sf(p):
             if got.shape == (xm,) and xm > 1:
                 want = (s * numpy.arange(xm) * st) ** 2
                 w_ramp = max(w_ramp, _nanmax(numpy.abs(got[1:] - want[1:]) / want[1:]))
+            # the same ramp riding on a large piston (a screen with its mean level left in; dyadic values, so every
+            # difference is exact): only differences enter the definition, the piston must cancel completely
+            for piston in (2.0 ** 10, 2.0 ** 20, 2.0 ** 26):
+                got = _call_sf(sc, ramp + piston, nb, step, xm)
+                o.stat("lib_calls", 1)
+                if got.shape == (xm,) and xm > 1:
+                    want = (s * numpy.arange(xm) * st) ** 2
+                    w_piston = max(w_piston, _nanmax(numpy.abs(got[1:] - want[1:]) / want[1:]))
+    o.close("sf_ramp_on_large_piston", w_piston, 1e-9)
     o.stat("sf_param_combinations_outside_domain", outside)
     o.check("sf_result_length", not bad_len, detail="(nbOfPoint, step, shape) %s" % (bad_len[:3],))
     o.close("sf_definition", w_def, TOL, detail="dense images, all (nbOfPoint, step) in the domain, lags >= 1")
